@@ -13,6 +13,7 @@ generated definitions in the driver against the real functions.
 -/
 import CM.Generated.Fn
 import CM.Model.Lookup
+import CM.Model.Account
 namespace CM.Tie.Fn
 open CM.Go CM.Lookup
 
@@ -209,5 +210,24 @@ theorem C02_tie_fn_SubjectQualifiesForCert (subj : Str) :
   rw [trimSpace_ne_nil, hasPrefix_dot, hasSuffix_dot, hasPrefix_stardot, containsAny_forbidden, hs,
     strings_Contains_single]
   simp [bne]
+
+/-! ### `SubjectIsInternal` (the host classification behind C20's HTTPS rule) -/
+
+/-- **the model's `internalHost` IS the translated `SubjectIsInternal`**: for every behaviour of the two
+functions that are not translated (`hostOnly`, `isInternalIP` — parameters of the translated
+definition), every subject and every byte list `ip` for which `isInternalIP` answers what the model's
+`internalIP` answers, the translated function returns what the model returns on the normalised host
+(`strings.ToLower(strings.TrimSuffix(hostOnly(subj), "."))`, computed by Go and handed to the model
+as an input). -/
+theorem C20_tie_fn_SubjectIsInternal (hostOnly : Str → Str) (isInternalIP : Str → Bool)
+    (subj : Str) (ip : List Nat)
+    (hip : isInternalIP (strings_ToLower (strings_TrimSuffix (hostOnly subj) (Go.s ".")))
+            = CM.Account.internalIP ip) :
+    CM.Gen.Fn.SubjectIsInternal hostOnly isInternalIP subj
+      = CM.Account.internalHost (strings_ToLower (strings_TrimSuffix (hostOnly subj) (Go.s "."))) ip := by
+  unfold CM.Gen.Fn.SubjectIsInternal CM.Account.internalHost CM.Account.internalSuffixes
+  simp only [hip, List.any_cons, List.any_nil, Bool.or_false, CM.Account.endsWith, strings_HasSuffix,
+    Bool.or_assoc]
+  rfl
 
 end CM.Tie.Fn
